@@ -32,7 +32,7 @@ RULE = ("one run = one fresh interpreter with a seeded PYTHONHASHSEED, simulated
         "preceding operation kinds, reuse flag) tuples with at least one preceding operation or a non-zero hash seed")
 COMPONENTS = {
     "real": ["fcp.parser", "fcp.verifier + plug-in checks", "fcp.encoding", "fcp.serde + fcp.reflection",
-             "fcp_dbc / fcp_can_c / fcp_cpp / fcp_nop Generator.generate", "jinja2 / cantools as used by the plug-ins"],
+             "fcp_dbc / fcp_can_c / fcp_cpp / fcp_nop Generator.generate", "binary reflection (serde.encode of FcpV2.reflection(), what `fcp encode` writes)", "jinja2 / cantools as used by the plug-ins"],
     "stub": ["PYTHONHASHSEED and TZ of the worker interpreter", "process-wide simulated wall clock (datetime.datetime/date, time.time/localtime/strftime...), user (pwd/getpass/os.getlogin/USER) and host (socket/platform/os.uname) installed before the code under test is imported",
              "os.listdir returning a seeded permutation", "scratch output directory for fcp_can_c"],
 }
@@ -49,6 +49,7 @@ EXPECTED_PROBES = {t: ["nonzero_hashseed", "generate_on_reused_tree", "generate_
                        "multi_protocol_schema", "clock_crossed_midnight", "after_parse_broken", "after_layout",
                        "listing_permuted", "two_generators_same_tree"] for t in TIERS}
 GENS = ["dbc", "can_c", "cpp", "nop"]
+ARTEFACTS = GENS + ["reflection"]      # reflection = the binary written by `fcp encode`
 
 
 # ---------------------------------------------------------------------------
@@ -132,7 +133,7 @@ def baseline(pool, g, sid, bodies=False):
 def prepare(seed, tier):
     """Pristine baselines for the whole pool, computed before the pool forks (children inherit them)."""
     pool = pool_for(seed, tier)
-    jobs = [(g, sid) for sid in sorted(pool) for g in GENS]
+    jobs = [(g, sid) for sid in sorted(pool) for g in ARTEFACTS]
     with ThreadPoolExecutor(max_workers=min(16, os.cpu_count() or 2)) as ex:
         list(ex.map(lambda j: baseline(pool, j[0], j[1]), jobs))
 
@@ -156,7 +157,7 @@ def gen_run(rng, pool):
         sid = rng.choice(sids)
         k = weighted(rng, [("generate", 5)] + [(x, 1.0 if swarm[x] else 0.05) for x in sorted(swarm)])
         if k == "generate":
-            ops.append(["generate", rng.choice(GENS), sid, rng.random() < 0.6])
+            ops.append(["generate", rng.choice(ARTEFACTS), sid, rng.random() < 0.6])
         elif k == "clock":
             ops.append(["clock", rng.choice([1, 2, 59, 3600, 86400, 31_536_000])])
         elif k == "parse_broken":
